@@ -2,12 +2,14 @@ package sim
 
 import (
 	"context"
+	"encoding/json"
 	"fmt"
 	"strings"
 	"sync"
 	"time"
 
 	ipfslog "berty.tech/go-ipfs-log"
+	"berty.tech/go-ipfs-log/entry"
 	"berty.tech/go-orbit-db/events"
 	"berty.tech/go-orbit-db/iface"
 	"berty.tech/go-orbit-db/stores"
@@ -512,7 +514,7 @@ func atomicRead(f func() string) string {
 
 func init() {
 	Register(&Scenario{Prop: "C16", Name: "concurrent-write-events", Run: scenC16Concurrent, SoftParks: true, Weight: 1,
-		Rule: "store on P (key-value or event log) with a prompt event-bus subscriber (buffer 8192, reads as soon as an event is sent, so no back-pressure); 2-5 rounds of 2-4 concurrent local writers stopped at the three write-path points and released one step at a time in drawn order, while writes on Q are replicated into P; oracle: on receipt of each EventWrite / EventReplicated the announced entries are in the log, the listing, and the key-value view shows their effect or that of a later entry; exactly one EventWrite per successful write, carrying the entry that call returned; non-trivial = >=2 writers were parked together at least once"})
+		Rule: "store on P (key-value or event log) with a prompt event-bus subscriber (buffer 8192, reads as soon as an event is sent, so no back-pressure); 2-5 rounds of 2-4 concurrent local writers stopped at the three write-path points and released one step at a time in drawn order, while writes on Q are replicated into P (in half of the runs a hostile peer also announces Q's valid heads together with tampered twins of them, which are fetched and refused at the merge); oracle: on receipt of each EventWrite / EventReplicated the announced entries are in the log, the listing, and the key-value view shows their effect or that of a later entry; exactly one EventWrite per successful write, carrying the entry that call returned; non-trivial = >=2 writers were parked together at least once"})
 }
 
 func scenC16Concurrent(k *K) {
@@ -554,9 +556,35 @@ func scenC16Concurrent(k *K) {
 	k.F = FaultCfg{Deliver: 5, Serve: 5, Refresh: 3, Tick: 1, Reorder: 1, ServeAny: 1}
 	before := k.W.Stats["burst-writers-parked-together"]
 	var acked []*WriteRec
+	var adv *Adversary
+	if k.C.Chance(1, 2) {
+		// a hostile peer mixes copies of Q's valid heads with tampered twins of them (payload
+		// changed, so the signature no longer verifies): such a log is fetched and then
+		// refused at the merge, and must not be announced as replicated
+		adv = k.NewAdversary()
+		adv.Engage(c.Peers[0], P)
+	}
 	for r, m := 0, k.C.Range(2, 5); r < m; r++ {
 		if k.C.Chance(1, 2) {
 			c.RandomWrite(1)
+		}
+		if adv != nil && c.Stores[1] != nil && k.C.Chance(2, 3) {
+			if hs := CopyHeads(c.Stores[1].OpLog().Heads().Slice()); len(hs) > 0 {
+				valid := hs[0].(*entry.Entry)
+				b, _ := json.Marshal(valid)
+				twin := &entry.Entry{}
+				_ = json.Unmarshal(b, twin)
+				twin.Payload = append(append([]byte(nil), twin.Payload...), ' ')
+				if h, err := adv.StoreEntry(twin); err == nil {
+					twin.Hash = h
+					heads := []*entry.Entry{valid, twin}
+					if k.C.Chance(1, 2) {
+						heads = []*entry.Entry{twin, valid}
+					}
+					adv.Deliver([]string{"topic", "direct"}[k.C.Intn(2)], c.Peers[0], P, heads...)
+					k.W.Stat("batch-with-a-log-refused-at-merge")
+				}
+			}
 		}
 		acked = append(acked, c.WriteBurst(0, k.C.Range(2, 4), k.C.Chance(4, 5))...)
 		k.Steps(k.C.Intn(8))
